@@ -219,7 +219,9 @@ def run(ctx):
                   "skip later entries" % (dep[1] if dep else ""), "no branch reads a field the consumer writes (%s)" % sorted(written))
     seen = set()
     cons_bodies = []
-    for sb, argl, d, cs in consumers:
+    work_c = list(consumers)
+    while work_c:
+        sb, argl, d, cs = work_c.pop(0)
         if sb.def_ in seen:
             continue
         seen.add(sb.def_)
@@ -232,13 +234,28 @@ def run(ctx):
         else:
             mine = [c for c in nexts if len(c.args) >= 2 and any(o[0] == "arg" and o[1] == argl for o in pr.operand(c.args[1]))]
             ok, why = exactly_once(sb, [c.bb for c in mine])
+            if not mine:
+                # the consumer hands the entry on to another function of the module that writes it: every call of a function that
+                # reaches EntryIoStream::next is a write of the entry - exactly one of them may run per popped entry (a `retry` that
+                # calls the writer a second time hands the entry to the stream twice)
+                writers = [c for c in sb.calls() if any(tb.crate == BG and tb.def_ != sb.def_ and reaches_call(F, tb, is_next, depth=2) for tb in local_callee_bodies(F, c))]
+                if writers:
+                    ok, why = exactly_once(sb, [c.bb for c in writers])
+                    if not ok:
+                        why = "the function that writes the entry can be called more than once for one popped entry, or not at all (%s)" % why
+                    for c in writers:
+                        pos = [ai for ai, a in enumerate(c.args) if any(o[0] == "arg" and o[1] == argl for o in pr.operand(a))]
+                        for tb in local_callee_bodies(F, c):
+                            if tb.crate == BG and pos:
+                                work_c.append((tb, pos[0] + 1, d, c))
+                    mine = writers
         key = fnkey(sb) + "#next-exactly-once"
         ctx.check(ok, "R01.2", key, loc(sb), "the popped entry is not handed to EntryIoStream::next exactly once on every path: " + why,
                   "next at bb%s on every path, never twice" % [c.bb for c in mine])
         other = [c for c in nexts if c not in mine]
         ctx.check(not other, "R01.4", fnkey(sb) + "#no-foreign-next", loc(sb), "consumer writes something other than the popped entry to the stream")
         # receiver = stream field of self
-        for c in mine:
+        for c in [c for c in mine if is_next(c)]:
             o = pr.operand(c.args[0])
             ctx.check(any(x[0] == "arg" and x[1] == 1 and x[2][:1] == ("stream",) for x in o) or any(x[0] == "arg" and x[1] == 1 for x in o),
                       "R01.2", fnkey(sb) + "#next-on-own-stream", loc(sb, c.bb), "next is not called on the receiver's own stream")
@@ -255,6 +272,8 @@ def run(ctx):
         ctx.check(not reaches_call(F, sb, is_insert, depth=3), "R01.3", fnkey(sb) + "#no-reinsertion", loc(sb), "consumer can re-insert into the ring")
         # in-band error report: control dependent on the Validation arm
         rep = sites_reaching(F, sb, lambda c: c.name == "report_error" and c.is_trait_method("EntryIoStreamExt"), depth=3)
+        if not nexts:
+            rep = []        # a consumer that only hands the entry on: the report is judged in the function that sees the stream's answer
         for r in rep:
             arm = None
             for i in sb.live_blocks():
